@@ -133,7 +133,7 @@ def a_layouts(chk, oracles_, texts, per_text, wall=None):
             vacuity=("ok",))
 
 
-def k0_texts(chk, oracles_, texts, name, wall=None, modes=("exec",), vac=("ok",)):
+def k0_texts(chk, oracles_, texts, name, wall=None, modes=("exec",), vac=("ok",), tokens_only=False):
     """concrete texts pushed through the same harness (chosen by a symbolic index so that they are sharded and counted like paths)"""
     texts = list(dict.fromkeys(texts))
     cases = [(t, m) for t in texts for m in modes]
@@ -141,7 +141,8 @@ def k0_texts(chk, oracles_, texts, name, wall=None, modes=("exec",), vac=("ok",)
     def textfn(ex):
         return cases[harness.choose_index(ex, "text", len(cases))]
     chk.extra[name.replace(" ", "_") + "_texts"] = len(cases)
-    chk.run(name, harness.A_harness(textfn, path_oracles=oracles_), f"{len(cases)} texts", wall=wall, vacuity=vac)
+    chk.run(name, harness.A_harness(textfn, path_oracles=oracles_, do_tokens=tokens_only, do_parse=not tokens_only) if tokens_only else harness.A_harness(textfn, path_oracles=oracles_),
+            f"{len(cases)} texts", wall=wall, vacuity=vac)
 
 
 INDENTS = ["", "  ", "    ", "      ", "\t", " \t", "        ", "\x0c  "]
